@@ -221,11 +221,13 @@ public:
               }
               else
               {
+                  // the source owns no storage: it is empty or degenerate (w x 0 / 0 x h); take over its dimensions
                   destruct_pixels(this->_view);
                   this->deallocate();
                   this->_memory = nullptr;
                   this->_allocated_bytes = 0;
-                  this->_view = view_t{};
+                  this->create_view(img.dimensions(), std::integral_constant<bool, IsPlanar>());
+                  img._view = view_t{};
               }
           }
       }
